@@ -70,6 +70,7 @@ class Region:
         from .interp import _cell_serial
         self.serial0 = _cell_serial[0] + 1
         self.shared_writes = []
+        self.carried = []   # (variable, site): a scalar read in one iteration of a worksharing loop that an earlier iteration wrote
         self.reductions = []
         self.schedule = None
 
@@ -115,6 +116,8 @@ class OpsDomain(SymDomain):
 
     def write(self, cell, v, e, fr):
         r = self.region
+        if r is not None and getattr(r, "loop_serial0", None) is not None and getattr(cell, "serial", 1 << 60) < r.loop_serial0:
+            r.iter_written.add(cell.serial)
         if r is not None and self.record and getattr(cell, "serial", 1 << 60) < r.serial0:
             # a scalar that exists outside the region is written inside it
             r.shared_writes.append(("%s#%d" % (cell.name, cell.serial), ir.locstr(e), r.group, r.cur))
@@ -155,6 +158,7 @@ class OpsDomain(SymDomain):
                 if c.get("ck") == "schedule":
                     r.schedule = c.get("kind")
             r.reductions = [ir.show(v) for c in s.get("clauses", []) if c.get("ck") == "reduction" for v in c.get("vars", [])]
+            r.region_clauses = list(s.get("clauses", []))
             self.region = r
             self.regions.append(r)
             try:
@@ -196,13 +200,28 @@ class OpsDomain(SymDomain):
         r.loop += 1
         ln = r.loop
         r.loops.append((ln, ir.locstr(s), nowait, r.group))
+        from . import interp as _interp
+        outer_serial = _interp._cell_serial[0] + 1      # cells created from here on belong to this loop (its variable, its body)
         it.exec(loop["init"], fr)
         n = 0
         from .interp import BreakEx, ContinueEx
+        red_names = set(v.get("name") for c in s.get("clauses", []) + (getattr(r, "region_clauses", None) or []) if c.get("ck") == "reduction" for v in c.get("vars", []))
+        prev_written = set()
+        r.iter_written = set()
+        r.loop_serial0 = outer_serial
+
+        def on_cell_read(cell, e_, _r=r, _site=ir.locstr(s)):
+            sn = getattr(cell, "serial", 1 << 60)
+            if sn < outer_serial and sn in prev_written and sn not in _r.iter_written and cell.name not in red_names:
+                _r.carried.append((cell.name, ir.locstr(e_), _site))
+                prev_written.discard(sn)     # one report per variable and loop
+        old_hook = _interp.CELL_READ_HOOK[0]
+        _interp.CELL_READ_HOOK[0] = on_cell_read
         while True:
             if loop["c"] is not None and not it.truth(it.rvalue(loop["c"], fr), loop["c"], fr):
                 break
             r.cur = (ln, n)
+            r.iter_written = set()
             try:
                 it.exec(loop["body"], fr)
             except ContinueEx:
@@ -211,11 +230,15 @@ class OpsDomain(SymDomain):
                 raise AnalysisBroken("break out of a worksharing loop at %s" % ir.locstr(s))
             finally:
                 r.cur = None
+                prev_written |= r.iter_written
             if loop["inc"] is not None:
                 it.eval(loop["inc"], fr)
             n += 1
             if n > 100000:
+                _interp.CELL_READ_HOOK[0] = old_hook
                 raise AnalysisBroken("loop limit at %s" % ir.locstr(s))
+        _interp.CELL_READ_HOOK[0] = old_hook
+        r.loop_serial0 = None
         if not nowait:
             r.group += 1
 
